@@ -29,11 +29,15 @@ KINDS = ["bool", "int", "float", "str", "str", "lstr", "ustr", "date", "datetime
 
 def generate(rng, tier):
     if rng.random() < 0.002:
-        n = rng.choice([10050, 13000])
+        n = rng.choice([10050, 13000, 70000])
         head = [rng.choice(["a", "ab", "b", "abc", "zz"]) for _ in range(n - 40)]
         tail = [rng.choice(["abcdefgh1", "abcdefgh0", "abcdefgz", "abcd"]) if rng.random() < 0.5 else ("y" * 55) + rng.choice(["c", "a", "b"]) for _ in range(40)]
         fn = rng.choice(["sort", "rank", "unique"])
-        case = {"kind": "str", "values": head + tail, "fn": fn, "tags": ["big"]}
+        values = head + tail
+        if n == 70000:
+            # more than 2**16 elements, the longest / distinguishing strings only near the START (block-wise scans)
+            values = [rng.choice(["abcdefgh1", "abcdefgh0", "abcdefgz", "abcd"]) for _ in range(40)] + head
+        case = {"kind": "str", "values": values, "fn": fn, "tags": ["big"]}
         if fn == "sort": case["dir"] = rng.choice([1, -1])
         if fn == "rank": case["method"] = rng.choice(["min", "max"])
         return case
@@ -42,6 +46,11 @@ def generate(rng, tier):
     na = rng.choice(["none", "none", "some", "first", "last", "all", "some"])
     dup = rng.choice(["few", "few", "distinct", "equal"])
     tags = set()
+    r_ = rng.random()
+    if r_ < 0.01:
+        n = rng.choice([255, 256, 257]); tags.add("boundary-size")        # exact boundaries of 8 / 16 bit integers (ranks, codes)
+    elif r_ < 0.0106:
+        n = rng.choice([65535, 65536, 65537]); tags.add("boundary-size")
     values = gen.gen_values(rng, kind, n, na, dup, hostile=0.4, tags=tags)
     if kind in ("str", "lstr") and rng.random() < 0.1:
         # mix lengths straddling the 50 character fast-path boundary
